@@ -1,12 +1,14 @@
 (* C05: the engine model (Search.v, fixed variant by default) replays every history of Analyze calls made on one engine.
-   input:  <id> ; <cfg> ; A|ALL ; <enc p>@<k> ; ...   (ALL: one AnalyzeAll call on a fresh engine, cancelled inside the k-th leaf evaluation of the whole call, 0 = never)      cfg = size depth evk nosort nonull noreduce multicut tablelen *)
+   input:  <id> ; <cfg> ; A|ALL ; <enc p>@<k> ; ...   (ALL: one AnalyzeAll call on a fresh engine, cancelled inside the k-th leaf evaluation of the whole call, 0 = never)      cfg = size depth evk nosort nonull noreduce multicut tablelen [dedup] *)
 open Common
 let b s = (s = "1")
 let parse_cfg s =
   match words s with
-  | [_size; depth; evk; nosort; nonull; noreduce; multicut; tlen] ->
+  | _size :: depth :: evk :: nosort :: nonull :: noreduce :: multicut :: tlen :: _ ->
     (SearchInst.mk_cfg (z_of_string depth) (b nosort) (b nonull) (b noreduce) (b multicut) (n_of_string evk), int_of_string tlen)
   | _ -> failwith ("c05 cfg: " ^ s)
+(* the ninth field: Cfg.DedupSymmetry (absent = off); such configurations run on the model of SearchDedup.v *)
+let parse_dedup s = (match words s with [_; _; _; _; _; _; _; _; d] -> b d | _ -> false)
 let parse_call s =
   match S.split_on_char '@' s with
   | [p; k] -> (parse_pos p, z_of_string (S.trim k))
@@ -17,8 +19,8 @@ let l2_of ((((_, _), _), (st : Search.stats)), _) =
     st.s_research; st.s_cutnodes; st.s_cut0; st.s_cut1; st.s_cutsearch; st.s_allnodes; st.s_nullsearch; st.s_nullcut; st.s_reduced;
     st.s_mcsearch; st.s_mccut])
 (* shared with C16: run a history, return the per-call L1 and L2 strings *)
-let run_history pinned cfg tlen calls =
-  let analyze = if pinned then SearchInst.run_analyze_pinned else SearchInst.run_analyze in
+let run_history ?(dedup=false) pinned cfg tlen calls =
+  let analyze = if pinned then SearchInst.run_analyze_pinned else if dedup then SearchDedupInst.run_analyze_d true else SearchInst.run_analyze in
   let st = ref (Search.new_state (nat_of_int tlen)) in
   let rs = L.map (fun (p, k) -> let (s', r) = analyze cfg k !st p in st := s'; r) calls in
   (S.concat " ; " (L.map l1_of rs), S.concat " ; " (L.map l2_of rs))
@@ -27,13 +29,16 @@ let run args =
   run_cases (fun fs ->
     match L.map S.trim (S.split_on_char ';' (L.hd fs)) with
     | _id :: cfg :: "A" :: calls ->
+      let dedup = parse_dedup cfg in
       let (cfg, tlen) = parse_cfg cfg in
-      let (l1, l2) = run_history pinned cfg tlen (L.map parse_call calls) in
+      let (l1, l2) = run_history ~dedup pinned cfg tlen (L.map parse_call calls) in
       (l1, Some l2, None)
     | [_id; cfg; "ALL"; call] ->
+      let dedup = parse_dedup cfg in
       let (cfg, tlen) = parse_cfg cfg in
       let (p, k) = parse_call call in
-      let all = if pinned then SearchAllInst.run_analyze_all_pinned else SearchAllInst.run_analyze_all_cancel in
+      let all = if pinned then SearchAllInst.run_analyze_all_pinned else if dedup then SearchDedupInst.run_analyze_all_d true
+                else SearchAllInst.run_analyze_all_cancel in
       let (_, (((lines, v), d), c)) = all cfg k (Search.new_state (nat_of_int tlen)) p in
       let firsts = L.sort compare (L.filter_map (function m :: _ -> Some (enc_move m) | [] -> None) lines) in
       let firsts = if firsts = [] then "-" else S.concat "," firsts in
